@@ -26,6 +26,28 @@ def estimate(dom, tuples, total, solver, iters, zeros=None, warm_start=False, el
     return engine, model
 
 
+def variant(np_seed, attrs):
+    """Non-default spellings of one and the same estimation problem, derived from the case's seed:
+    a caller-given elimination order (1 in 4), a callback that only reads what it is handed
+    (1 in 4; it must be called, and must not change the result), and explicit default options
+    passed by the caller (1 in 5).  Returns (kwargs for estimate(), tags, callback log)."""
+    import numpy as _np
+    rng = _np.random.RandomState((int(np_seed) * 2654435761 + 12345) % (2 ** 32))
+    kw, tags, seen = {}, [], []
+    if rng.rand() < 0.25:
+        kw['elim'] = [attrs[i] for i in rng.permutation(len(attrs))]
+        tags.append('opt:elim_order')
+    if rng.rand() < 0.25:
+        def cb(x, _seen=seen):
+            _seen.append(type(x).__name__)
+        kw['callback'] = cb
+        tags.append('opt:callback')
+    if rng.rand() < 0.2:
+        kw['options'] = {}
+        tags.append('opt:options_dict')
+    return kw, tags, seen
+
+
 def optimum(attrs, shape, meas_plain, total):
     """Certified optimum of the squared loss over all nonnegative tables with the given total.
     Returns (f_upper, gap, f_uniform, p, adequate): f* lies in [f_upper - gap, f_upper].
